@@ -777,7 +777,7 @@ func (x *Exec) rangeStmt(s *ast.RangeStmt, st *State) *Flow {
 	switch c := coll.(type) {
 	case VStrs:
 		n = c.N
-		elem = func(h *State, k Term) Val { return fx.strAt(c, k, false) }
+		elem = func(h *State, k Term) Val { return wrapElem(c, fx.strAt(c, k, false)) }
 	case VIfaces:
 		n = c.N
 		elem = func(h *State, k Term) Val { return fx.ifaceAt(c, k, false) }
